@@ -42,7 +42,7 @@ THEOREMS = [
     "IwModel.C17.ptr_all_slots_assigned", "IwModel.C17.itoa_safe", "IwModel.C17.ftoa_safe", "IwModel.C17.ftoa_old_overrun", "IwModel.C17.atoi2_safe",
     "IwModel.C17.afcmp_safe", "IwModel.C17.hex2bin_safe", "IwModel.C17.revm_safe", "IwModel.C17.gen_side_conditions",
     "IwModel.C17.reparse_safe", "IwModel.C17.reparse_empty_pattern_overruns", "IwModel.C17.recompile_program_wf", "IwModel.C17.compiled_program_safe",
-    "IwModel.C17.compiled_program_safe_within_limits",
+    "IwModel.C17.compiled_program_safe_within_limits", "IwModel.C17.reparse_tree_bounded", "IwModel.C17.refront_overflow_witnesses",
 ]
 
 H = lambda b: binascii.hexlify(bytes(b)).decode() or "-"
